@@ -15,7 +15,14 @@
      {"ev":"eos"}                              the last receiver saw the end of the stream (all senders gone)
      {"ev":"drop","after":k}                   the consumer dropped its receiver after k messages
      {"ev":"full_hits","n":k}                  hook counter: how often the helper took its Full branch (vacuity guard only)
-     {"ev":"table","t":[...]}                  final lifecycle table (only after eos)
+     {"ev":"table","t":[...]}                  final lifecycle table (only after eos), entries {"id","ecu","nr","start","stop","resume"}
+     {"ev":"lc_fold","who":o,"polls":n,"fold":[...]}   (after table) what table observer o ("consumer": polls while receiving,
+                                              "thread": polls at its own pace) holds after one final poll, having followed the
+                                              table INCREMENTALLY the way remote.rs process_file_context does: remember the
+                                              largest lcs_w_refresh_idx seen, on every poll take every entry with a larger one
+     {"ev":"lc_polls","seq":[{"idx":i,"h":h},...]}     (after table) the distinct table contents the thread observer saw, in
+                                              order: largest refresh index carried and a hash of the content, both restricted
+                                              to the lifecycles of the final table
      {"ev":"joined","stage":s}                 thread s ended within the bound (>= 30 s) after eos / drop
      {"ev":"end"}                              end of the case
      {"ev":"join_timeout","stage":s} / {"ev":"recv_timeout"} / {"ev":"panic","stage":s,"msg":..}    no action matches
@@ -26,17 +33,21 @@
      sorted pipeline:   every received message is a not yet received reference message (permutation; order is C10's)
      eos:   only when everything of the reference was received (nothing lost)
      table: equal to the reference table as a bag, ids renamed through lcmap (ids no received message carries -> 0)
+     lc_fold: for every lifecycle of the final table the observer's folded entry equals the final entry (following the
+            table by refresh index ends with the final table for every pacing); ids missing in the final table are not judged
+     lc_polls: the refresh index never decreases, and two different table contents never carry the same index (= every
+            publish that changes a visible entry has an index larger than any published before; Pipeline.tla PublishIdxMonotone)
      drop / eos: afterwards every thread joins.                                                             *)
 EXTENDS Integers, Sequences, FiniteSets, TLC, Json, IOUtils
 
 Rec == ndJsonDeserialize(IOEnv.TRACE)
 
-VARIABLES l, case, phase, hl, nrecv, pending, lcmap, joined, tableSeen, fullSeen, viol
-vars == <<l, case, phase, hl, nrecv, pending, lcmap, joined, tableSeen, fullSeen, viol>>
+VARIABLES l, case, phase, hl, nrecv, pending, lcmap, joined, tableSeen, fullSeen, tbl, folded, pollsSeen, viol
+vars == <<l, case, phase, hl, nrecv, pending, lcmap, joined, tableSeen, fullSeen, tbl, folded, pollsSeen, viol>>
 
 EmptyMap == [x \in {} |-> 0]
 Init == /\ l = 1 /\ case = -1 /\ phase = "idle" /\ hl = 0 /\ nrecv = 0 /\ pending = {} /\ lcmap = EmptyMap
-        /\ joined = {} /\ tableSeen = FALSE /\ fullSeen = FALSE /\ viol = {}
+        /\ joined = {} /\ tableSeen = FALSE /\ fullSeen = FALSE /\ tbl = <<>> /\ folded = {} /\ pollsSeen = FALSE /\ viol = {}
 
 Ev(e) == l <= Len(Rec) /\ Rec[l].ev = e /\ l' = l + 1
 Cur == Rec[l]
@@ -44,7 +55,7 @@ Hdr == Rec[hl].hdr
 
 Reset == /\ Ev("reset")
          /\ case' = Cur.case /\ hl' = l /\ nrecv' = 0 /\ pending' = 1..Len(Cur.hdr.ref) /\ lcmap' = EmptyMap
-         /\ joined' = {} /\ tableSeen' = FALSE /\ fullSeen' = FALSE
+         /\ joined' = {} /\ tableSeen' = FALSE /\ fullSeen' = FALSE /\ tbl' = <<>> /\ folded' = {} /\ pollsSeen' = FALSE
          /\ phase' = "running"
          /\ viol' = IF phase \in {"running", "eos", "dropped"} THEN viol \cup {case} ELSE viol   \* previous case never ended
 
@@ -61,44 +72,60 @@ Recv == /\ Ev("recv") /\ phase = "running"
            ELSE /\ nrecv < Len(Hdr.ref) /\ Same(Hdr.ref[nrecv + 1])
                 /\ pending' = pending \ {nrecv + 1} /\ lcmap' = Bind(Cur.lc, Hdr.ref[nrecv + 1].lc)
         /\ nrecv' = nrecv + 1
-        /\ UNCHANGED <<case, phase, hl, joined, tableSeen, fullSeen, viol>>
+        /\ UNCHANGED <<case, phase, hl, joined, tableSeen, fullSeen, tbl, folded, pollsSeen, viol>>
 
 Eos == /\ Ev("eos") /\ phase = "running" /\ pending = {}
-       /\ phase' = "eos" /\ UNCHANGED <<case, hl, nrecv, pending, lcmap, joined, tableSeen, fullSeen, viol>>
+       /\ phase' = "eos" /\ UNCHANGED <<case, hl, nrecv, pending, lcmap, joined, tableSeen, fullSeen, tbl, folded, pollsSeen, viol>>
 Drop == /\ Ev("drop") /\ phase = "running" /\ Cur.after = nrecv
-        /\ phase' = "dropped" /\ UNCHANGED <<case, hl, nrecv, pending, lcmap, joined, tableSeen, fullSeen, viol>>
+        /\ phase' = "dropped" /\ UNCHANGED <<case, hl, nrecv, pending, lcmap, joined, tableSeen, fullSeen, tbl, folded, pollsSeen, viol>>
 FullHits == /\ Ev("full_hits") /\ phase \in {"eos", "dropped"} /\ Cur.n >= 0 /\ ~fullSeen
-            /\ fullSeen' = TRUE /\ UNCHANGED <<case, phase, hl, nrecv, pending, lcmap, joined, tableSeen, viol>>
+            /\ fullSeen' = TRUE /\ UNCHANGED <<case, phase, hl, nrecv, pending, lcmap, joined, tableSeen, tbl, folded, pollsSeen, viol>>
 
 \* table entries with ids renamed (f: id -> canonical id or 0)
-Canon(t, f(_)) == [i \in 1..Len(t) |-> [id |-> f(t[i].id), ecu |-> t[i].ecu, nr |-> t[i].nr, start |-> t[i].start, stop |-> t[i].stop]]
+Canon(t, f(_)) == [i \in 1..Len(t) |-> [id |-> f(t[i].id), ecu |-> t[i].ecu, nr |-> t[i].nr, start |-> t[i].start, stop |-> t[i].stop, resume |-> t[i].resume]]
 Count(s, x) == Cardinality({i \in 1..Len(s) : s[i] = x})
 BagEq(a, b) == Len(a) = Len(b) /\ \A i \in 1..Len(a) : Count(a, a[i]) = Count(b, a[i])
 RunId(x) == IF x \in DOMAIN lcmap THEN lcmap[x] ELSE 0
 RefId(x) == IF x \in Range(lcmap) THEN x ELSE 0
 Table == /\ Ev("table") /\ phase = "eos" /\ ~tableSeen
          /\ BagEq(Canon(Cur.t, RunId), Canon(Hdr.reftable, RefId))
-         /\ tableSeen' = TRUE /\ UNCHANGED <<case, phase, hl, nrecv, pending, lcmap, joined, fullSeen, viol>>
+         /\ tableSeen' = TRUE /\ tbl' = Cur.t
+         /\ UNCHANGED <<case, phase, hl, nrecv, pending, lcmap, joined, fullSeen, folded, pollsSeen, viol>>
+
+\* the incremental view of the table (by refresh index) ends with the final table
+ObsSet == {Hdr.observers[i] : i \in 1..Len(Hdr.observers)}
+LcFold == /\ Ev("lc_fold") /\ phase = "eos" /\ tableSeen /\ Cur.who \in ObsSet \ folded
+          /\ \A i \in 1..Len(tbl) : \E j \in 1..Len(Cur.fold) : Cur.fold[j] = tbl[i]
+          /\ folded' = folded \cup {Cur.who}
+          /\ UNCHANGED <<case, phase, hl, nrecv, pending, lcmap, joined, tableSeen, fullSeen, tbl, pollsSeen, viol>>
+\* different visible contents never carry the same refresh index, and the index never goes back
+LcPolls == /\ Ev("lc_polls") /\ phase = "eos" /\ tableSeen /\ ~pollsSeen
+           /\ \A i \in 1..(Len(Cur.seq) - 1) : \/ Cur.seq[i].idx < Cur.seq[i + 1].idx
+                                                \/ (Cur.seq[i].idx = Cur.seq[i + 1].idx /\ Cur.seq[i].h = Cur.seq[i + 1].h)
+           /\ pollsSeen' = TRUE
+           /\ UNCHANGED <<case, phase, hl, nrecv, pending, lcmap, joined, tableSeen, fullSeen, tbl, folded, viol>>
 
 StageSet == {Hdr.stages[i] : i \in 1..Len(Hdr.stages)}
 Joined == /\ Ev("joined") /\ phase \in {"eos", "dropped"} /\ Cur.stage \in StageSet \ joined
           /\ joined' = joined \cup {Cur.stage}
-          /\ UNCHANGED <<case, phase, hl, nrecv, pending, lcmap, tableSeen, fullSeen, viol>>
-End == /\ Ev("end") /\ phase \in {"eos", "dropped"} /\ joined = StageSet /\ (phase = "eos" => tableSeen)
-       /\ phase' = "ended" /\ UNCHANGED <<case, hl, nrecv, pending, lcmap, joined, tableSeen, fullSeen, viol>>
+          /\ UNCHANGED <<case, phase, hl, nrecv, pending, lcmap, tableSeen, fullSeen, tbl, folded, pollsSeen, viol>>
+End == /\ Ev("end") /\ phase \in {"eos", "dropped"} /\ joined = StageSet
+       /\ (phase = "eos" => tableSeen /\ folded = ObsSet /\ pollsSeen)
+       /\ phase' = "ended" /\ UNCHANGED <<case, hl, nrecv, pending, lcmap, joined, tableSeen, fullSeen, tbl, folded, pollsSeen, viol>>
 
-Matches == ENABLED Recv \/ ENABLED Eos \/ ENABLED Drop \/ ENABLED FullHits \/ ENABLED Table \/ ENABLED Joined \/ ENABLED End
+Matches == \/ ENABLED Recv \/ ENABLED Eos \/ ENABLED Drop \/ ENABLED FullHits \/ ENABLED Table \/ ENABLED Joined \/ ENABLED End
+           \/ ENABLED LcFold \/ ENABLED LcPolls
 Reject == /\ l <= Len(Rec) /\ Cur.ev # "reset" /\ phase \in {"running", "eos", "dropped"} /\ ~Matches
           /\ PrintT(<<"CASE_REJECTED", case, l, ToJson(Cur)>>)
           /\ l' = l + 1 /\ phase' = "rejected" /\ viol' = viol \cup {case}
-          /\ UNCHANGED <<case, hl, nrecv, pending, lcmap, joined, tableSeen, fullSeen>>
+          /\ UNCHANGED <<case, hl, nrecv, pending, lcmap, joined, tableSeen, fullSeen, tbl, folded, pollsSeen>>
 SkipRest == /\ l <= Len(Rec) /\ Cur.ev # "reset" /\ phase \in {"rejected", "ended", "idle"}
             /\ l' = l + 1
             /\ IF phase = "ended" THEN viol' = viol \cup {case} /\ phase' = "rejected"   \* events after `end`
                                   ELSE UNCHANGED <<viol, phase>>
-            /\ UNCHANGED <<case, hl, nrecv, pending, lcmap, joined, tableSeen, fullSeen>>
+            /\ UNCHANGED <<case, hl, nrecv, pending, lcmap, joined, tableSeen, fullSeen, tbl, folded, pollsSeen>>
 
-Next == Reset \/ Recv \/ Eos \/ Drop \/ FullHits \/ Table \/ Joined \/ End \/ Reject \/ SkipRest
+Next == Reset \/ Recv \/ Eos \/ Drop \/ FullHits \/ Table \/ LcFold \/ LcPolls \/ Joined \/ End \/ Reject \/ SkipRest
 Spec == Init /\ [][Next]_vars
 
 AtEnd == l = Len(Rec) + 1
